@@ -20,7 +20,7 @@ def sh(cmd, cwd=None, env=None, timeout=3600):
 def _outdir(pid, m):
     if m in ("b2", "b3"):
         return "/tmp/wt/out8_%s" % pid
-    return {"n": "/tmp/wt/out2_%s", "p": "/tmp/wt/out3_%s", "q": "/tmp/wt/out4_%s", "r": "/tmp/wt/out5_%s", "u": "/tmp/wt/out6_%s", "v": "/tmp/wt/out7_%s",
+    return {"n": "/tmp/wt/out2_%s", "p": "/tmp/wt/out3_%s", "q": "/tmp/wt/out4_%s", "r": "/tmp/wt/out5_%s", "u": "/tmp/wt/out6_%s", "v": "/tmp/wt/out7_%s", "w": "/tmp/wt/out9_%s",
             "b": "/tmp/wt/out7_%s"}.get(m[0], "/tmp/wt/out_%s") % pid
 
 
